@@ -22,10 +22,8 @@ use std::os::unix::io::{OwnedFd, RawFd};
 
 pub fn std_to_libc_in_addr(addr: std::net::Ipv4Addr) -> libc::in_addr {
     libc::in_addr {
-        s_addr: addr
-            .octets()
-            .iter()
-            .fold(0, |acc, x| (acc << 8) | (*x as u32)),
+        /* s_addr is in network byte order, whatever the host's byte order is. */
+        s_addr: u32::from_ne_bytes(addr.octets()),
     }
 }
 
